@@ -13,18 +13,19 @@ done
 python3 - "$V" <<'PY' || rc=1
 import sys
 sys.path.insert(0, sys.argv[1] + "/check")
-import check, props
-# regenerate every translator-written coq/Gen/*.v from /repo before the Coq build
-seen = set()
-for pid, spec in sorted(props.PROPS.items()):
-    for tr, ok, msg in check.run_translators(spec):
-        k = tr["out"]
-        if k in seen:
+import check
+# regenerate coq/Gen/*.v (translator-written model parts) before the Coq build
+_done = set()
+for _pid, _spec in sorted(check.PROPS.PROPS.items()):
+    for _tr in _spec.get("translators", []):
+        _k = (_tr["driver"], tuple(_tr["args"]), _tr["out"])
+        if _k in _done:
             continue
-        seen.add(k)
-        if not ok:
-            print("setup: translator for %s failed: %s" % (k, msg[-500:]))
-            sys.exit(1)
+        _done.add(_k)
+        for _t, _ok, _msg in check.run_translators({"translators": [_tr]}):
+            if not _ok:
+                print("setup: translator for %s failed: %s" % (_t["out"], _msg[-800:]))
+                sys.exit(1)
 check.coq_project()
 PY
 (cd coq && timeout 3000 make -j16 -k >"$V/build/coq-make.log" 2>&1) || { echo "setup: coq make reported errors (see build/coq-make.log)"; tail -30 "$V/build/coq-make.log"; rc=1; }
